@@ -180,7 +180,7 @@ def make_cases(tier, profile):
             cases.append(dict(name=f'{fn} on {n} bytes', pure='fn1', fn=fn, n=n, err_arg=err))
     return cases
 
-BOUNDS = dict(quick='existence of #x, membership of the actor and one other user, the actor\'s founder/operator/half-operator flags and operator mode, its invitation, key, 64-bit limit and max_joins, one ban mask, +i +m +s symbolic; thorough: additionally protected/voice of the actor', universe='registered actor in a symbolic world (own rank flags, memberships of everybody, flags, key, 64-bit limit and max_joins, lists, invitations, away, all user modes, WHOWAS history) and an unregistered connection',
+BOUNDS = dict(quick='existence of #x, membership of the actor and one other user, the actor\'s founder/operator/half-operator flags and operator mode, its invitation, key, 64-bit limit and max_joins, one ban mask, +i +m +s symbolic; thorough: additionally protected/voice of the actor', universe='registered actor in a symbolic world (one peer with a multi-byte realname, own rank flags, memberships of everybody, flags, key, 64-bit limit and max_joins, lists, invitations, away, all user modes, WHOWAS history) and an unregistered connection',
               lines='about 900 concrete lines: every verb with every arity, existing / unknown / repeated / own / empty / 300-500 byte names, multi-byte text, wildcard-heavy masks, numeric extremes (0, 2^64-1, 2^64, -1, non-digits), sign-switching mode strings, comma lists with repeats, prefixes, odd spacing and sources',
               pure_layer='from_shared_str + from_message on "<VERB> " followed by up to 3 (4) fully symbolic bytes (ASCII and UTF-8) for all 41 verbs; validate_*, normalize_sourcemask, get_privmsg_target_type, validate_password_hash on up to 5 (6) symbolic bytes',
               outside='sequences of lines beyond one step from an Inv-state (covered inductively through Inv); lines longer than 500 bytes except the over-long event; memory exhaustion')
